@@ -513,11 +513,16 @@ impl CldbRunEnv {
                     let line_text = self.program_lines[use_line].to_string();
                     if use_col >= line_text.len() {
                         None
-                    } else if end_col >= line_text.len() {
-                        end_col = line_text.len();
-                        Some(line_text[use_col..end_col].to_string())
                     } else {
-                        Some(line_text[use_col..end_col].to_string())
+                        if end_col >= line_text.len() {
+                            end_col = line_text.len();
+                        }
+                        // Columns count characters (tabs expanded), not bytes, so
+                        // the range may be reversed or fall inside a multi byte
+                        // character: no text then, rather than a panic.
+                        line_text
+                            .get(use_col..end_col)
+                            .map(|text| text.to_string())
                     }
                 }
             })
